@@ -120,9 +120,67 @@ Fixpoint u16s (bs : list byte) : list N :=
   | _ => []
   end.
 
-(* read_from: [bs] are the 128 bytes of the slot (UnexpectedEof when short) *)
+(* read_from on fewer than 128 bytes (the slot lies in a truncated last sector): the fields are
+   read one after the other and each is checked as soon as it has been read, so the result is
+   the first event in reading order - a failed check of a field that is completely there, or
+   UnexpectedEof at the first field that is not.  Never Ok. *)
+Definition dirent_decode_short (strict : bool) (bs0 : list byte) : res dirent :=
+  let L := lenN bs0 in
+  let bs := bs0 ++ repeatN 0 (DIR_ENTRY_LEN - L) in
+  if L <? 66 then Err EUnexpectedEof else
+  let name_chars := u16s (takeN 64 bs) in
+  let name_len_bytes := le_val (takeN 2 (dropN 64 bs)) in
+  if 64 <? name_len_bytes then Err EInvalidData else
+  if negb (name_len_bytes mod 2 =? 0) then Err EInvalidData else
+  let name_len_chars := if 0 <? name_len_bytes then name_len_bytes / 2 - 1 else 0 in
+  match nthN name_chars name_len_chars with
+  | None => Panic 101
+  | Some term =>
+  if strict && negb (term =? 0) then Err EInvalidData else
+  match from_utf16 (takeN name_len_chars name_chars) with
+  | None => Err EInvalidData
+  | Some nm0 =>
+  if L <? 67 then Err EUnexpectedEof else
+  match nthN bs 66 with None => Err EUnexpectedEof | Some tb =>
+  match objtype_of_byte tb with
+  | None => Err EInvalidData
+  | Some ty =>
+  match (if objtype_eqb ty TRoot then
+           if list_eqb N.eqb nm0 ROOT_DIR_NAME then Ok nm0
+           else if strict then Err EInvalidData else Ok nm0
+         else validate_name nm0) with
+  | Err k => Err k | Panic n => Panic n | OutOfFuel => OutOfFuel
+  | Ok _ =>
+  if L <? 68 then Err EUnexpectedEof else
+  match nthN bs 67 with None => Err EUnexpectedEof | Some cb =>
+  match color_of_byte cb with
+  | None => Err EInvalidData
+  | Some _ =>
+  if L <? 72 then Err EUnexpectedEof else
+  let left := le_val (takeN 4 (dropN 68 bs)) in
+  if negb (left =? NO_STREAM) && (MAX_REGULAR_STREAM_ID <? left) then Err EInvalidData else
+  if L <? 76 then Err EUnexpectedEof else
+  let right := le_val (takeN 4 (dropN 72 bs)) in
+  if negb (right =? NO_STREAM) && (MAX_REGULAR_STREAM_ID <? right) then Err EInvalidData else
+  if L <? 80 then Err EUnexpectedEof else
+  let child := le_val (takeN 4 (dropN 76 bs)) in
+  if negb (child =? NO_STREAM) && (objtype_eqb ty TStream || (MAX_REGULAR_STREAM_ID <? child))
+  then Err EInvalidData else
+  if L <? 96 then Err EUnexpectedEof else
+  let clsid0 := clsid_decode (takeN 16 (dropN 80 bs)) in
+  if objtype_eqb ty TStream && negb (clsid0 =? 0) && strict then Err EInvalidData else
+  if L <? 108 then Err EUnexpectedEof else
+  let ct0 := le_val (takeN 8 (dropN 100 bs)) in
+  if objtype_eqb ty TStream && negb (ct0 =? 0) && strict then Err EInvalidData else
+  if L <? 116 then Err EUnexpectedEof else
+  let mt0 := le_val (takeN 8 (dropN 108 bs)) in
+  if objtype_eqb ty TStream && negb (mt0 =? 0) && strict then Err EInvalidData else
+  Err EUnexpectedEof            (* start sector and length are read before either is checked *)
+  end end end end end end end.
+
+(* read_from: [bs] are the 128 bytes of the slot *)
 Definition dirent_decode (v : version) (strict : bool) (bs : list byte) : res dirent :=
-  if lenN bs <? DIR_ENTRY_LEN then Err EUnexpectedEof else
+  if lenN bs <? DIR_ENTRY_LEN then dirent_decode_short strict bs else
   let name_chars := u16s (takeN 64 bs) in
   let name_len_bytes := le_val (takeN 2 (dropN 64 bs)) in
   if 64 <? name_len_bytes then Err EInvalidData else
